@@ -54,7 +54,12 @@ def fuzz_contracts(names, seed, tier, budget_s=None, per_contract=None):
             "pre_false": pre_false}
 
 
-def fuzz_job(names):
+def fuzz_job(names, quick_budget_s=None, thorough_budget_s=None):
     def run(seed, tier):
-        return fuzz_contracts(names, seed, tier)
+        return fuzz_contracts(names, seed, tier, budget_s=quick_budget_s if tier == "quick" else thorough_budget_s)
     return run
+
+
+def fuzz_jobs_split(names, quick_budget_s=30, thorough_budget_s=240, label="rt-contracts"):
+    """one pool job per contract (they run in parallel), each with its own time budget"""
+    return [("%s:%s" % (label, nm), fuzz_job([nm], quick_budget_s, thorough_budget_s)) for nm in names]
